@@ -85,6 +85,25 @@ def gen(rng, tier):
             # 'StateTraj like': a labeling handed over as the MACRO side of a LumpedStateTraj (more micro than macro states)
             case['aslumped'] = rng.choice([[1], [2], [1, 2]])
         yield case
+    for _ in range(G.budget(24) if tier == 'quick' else 600):
+        # strongly SKEWED populations: a dominant state against states of one to three frames in the other labeling
+        # (population ratio far beyond 32 or 64), the rare frames placed at the first / last frame of the dominant state
+        N = rng.choice([rng.randint(100, 400), rng.randint(400, 3000), 2 ** rng.randint(7, 11) + rng.choice([-1, 0, 1])])
+        A, B, X, Y = 3, 8, 0, 5
+        f1 = [A] * N
+        for p_ in rng.sample(range(N), rng.randint(1, 3)):
+            f1[p_] = B
+        f2 = [X] * N
+        idxA = [i for i, v in enumerate(f1) if v == A]
+        rare = set(rng.sample(range(N), rng.randint(0, 2)))
+        rare.add(idxA[-1] if rng.random() < 0.7 else idxA[0])
+        for p_ in rare:
+            f2[p_] = Y
+        if rng.random() < 0.3:
+            f2 = [v if rng.random() < 0.97 else 9 for v in f2]
+        if rng.random() < 0.5:
+            f1, f2 = f2, f1
+        yield {'t1': _split(rng, f1), 't2': _split(rng, f2), 'method': rng.choice(['symmetric', 'directed']), 'mal': None, 'alpha': 'skewed'}
     for _ in range(1 if tier == 'quick' else 6):                   # one contingency cell with far more than 46341 frames
         N = rng.choice([60000, 100000])
         a, b = rng.sample([0, 1, 3, 7], 2)
